@@ -13,8 +13,8 @@ TraceInit == S = {} /\ l = 1 /\ subj = [subject |-> "none"] /\ kf = {}
 
 Step(e) ==
     LET U == subj.universe IN
-    \/ e.op = "insert"     /\ e.ok  /\ Insert(e.k)
-    \/ e.op = "insert"     /\ ~e.ok /\ InsertRefused(e.k)
+    \/ e.op = "insert"     /\ e.ok  /\ InsertSeen(e.k, e.after)
+    \/ e.op = "insert"     /\ ~e.ok /\ InsertRefused(e.k) /\ e.after = (e.k \in S)
     \/ e.op = "remove"     /\ e.ok  /\ Remove(e.k, e.r)
     \/ e.op = "remove"     /\ ~e.ok /\ RemoveRefused(e.k)
     \/ e.op = "insert_all" /\ e.ok  /\ InsertAll(e.keys)
@@ -27,7 +27,10 @@ Step(e) ==
     \/ e.op = "accepts"    /\ Accepts(e.k, e.r)
     \/ e.op = "lookup"     /\ Lookup(e.k, e.r)
     \/ e.op = "longest_prefix" /\ LongestPrefix(e.q, e.r)
-    \/ e.op = "probe"      /\ ProbeSet(U, e.len, e.contains, e.absent)
+    \/ e.op = "probe"      /\ ProbeSet(U, e.len, e.contains, e.absent) /\ TwinsOK(e.len_twins, e.is_empty)
+    \/ e.op = "probe_ids"  /\ ProbeIds(e.ids)
+    \/ e.op = "clear"      /\ Clear
+    \/ e.op = "maintenance" /\ Maintenance
     \/ e.op = "probe_keys" /\ ProbeKeys(e.keys, e.prefix)
     \/ e.op = "probe_fsa"  /\ ProbeFsa(U, e.accepts, e.lookup, e.absent, e.longest)
 
